@@ -200,7 +200,9 @@ def all_single_faults(seed_json):
 
 
 def seeds(two_nodes):
-    res = [('large', D.to_json(LARGE_DOC, 'a comment'))]
+    res = [('large', D.to_json(LARGE_DOC, 'a comment')),
+           # REPRESENTATION: the same document with reversed key order and the extra keys real Dezyne emits
+           ('large-reshaped', D.to_json(LARGE_DOC, 'a comment', 'reversed+extra'))]
     k = 0
     for forest in c05.forests(2 if two_nodes else 1):
         if not forest:
@@ -331,11 +333,11 @@ def _one(case, part, sample):
 def explore(ctx):
     jobs = [('toplevel',), ('outevents',), ('deep',)]
     for name, seed in seeds(two_nodes=ctx.thorough):
-        nslots = 8 if name == 'large' else 1
+        nslots = 8 if name.startswith('large') else 1
         jobs += [('single', name, seed, i, nslots) for i in range(nslots)]
     if ctx.thorough:
         for name, seed in seeds(two_nodes=False):
-            if name == 'large':
+            if name.startswith('large'):
                 continue
             jobs += [('pairs', name, seed, i, 8) for i in range(8)]
     for part in pmap(work, jobs):
